@@ -1,5 +1,5 @@
 /-
-  Model of the sleep/wake command admission code, after fixes/C28-*.patch:
+  Model of the sleep/wake command admission code, after fixes/C28-*.patch and fixes/C29-*.patch:
 
   * internal/flood/flood.go  markSleepCmdSeen, HandleSleepCommand, HandleWakeCommand,
     verifySleepCommand / verifyWakeCommand (identical), floodSleepCommand / floodWakeCommand,
@@ -121,6 +121,10 @@ def mark (l : List Seen) (now : Int) (origin id from_ : Nat) : List Seen × Bool
   else
     ({ origin, id, seenAt := now, seenFrom := from_ } :: l, true)
 
+/-- `sleepCmdCacheTTL()`: `SeenCacheTTL`, but never less than twice the timestamp window
+    (fixes/C29-sleep-cache-ttl.patch). -/
+def sleepTtl (cfg : FCfg) : Int := if cfg.ttl < 2 * cfg.window then 2 * cfg.window else cfg.ttl
+
 /-- The TTL pass of `cleanupSleepCmdCache`: entries with `now - SeenAt > expiry` are deleted. -/
 def expire (l : List Seen) (now ttl : Int) : List Seen := l.filter fun e => !decide (now - e.seenAt > ttl)
 
@@ -130,14 +134,33 @@ def expire (l : List Seen) (now ttl : Int) : List Seen := l.filter fun e => !dec
 def recipients (cfg : FCfg) (from_ : Nat) (seenBy : List Nat) : List Nat :=
   cfg.peers.filter fun p => p != from_ && !seenBy.contains p
 
-/-- `HandleSleepCommand` / `HandleWakeCommand`: new state, the boolean result, frames sent. -/
+/-- `HandleSleepCommand` / `HandleWakeCommand`: new state, the boolean result, frames sent.
+    Order of the checks (after fixes/C29-verify-before-mark.patch): SeenBy loop check, signature
+    and timestamp verification, and only then the seen-cache test-and-set. -/
 def handleWith (outside : FCfg → Int → Nat → Bool) (V : Verifier) (cfg : FCfg) (st : FState) (now : Int)
+    (k : Kind) (from_ : Nat) (c : Cmd) : FState × Bool × List (Nat × Cmd) :=
+  if c.seenBy.contains cfg.localID then (st, false, [])
+  else if !verifyWith outside V cfg now c then (st, false, [])
+  else
+    let (seen', isNew) := mark st.seen now c.origin c.id from_
+    let st1 := { st with seen := seen' }
+    if !isNew then (st1, false, [])
+    else
+      let fwd := { c with seenBy := c.seenBy ++ [cfg.localID] }
+      let sends := (recipients cfg from_ fwd.seenBy).map fun p => (p, fwd)
+      let st2 := match k with
+        | .wake => { st1 with pending := some (c, now) }
+        | .sleep => st1
+      (st2, true, sends)
+
+/-- The order before that fix: the key was recorded in the seen cache BEFORE verification. -/
+def handleMarkFirst (V : Verifier) (cfg : FCfg) (st : FState) (now : Int)
     (k : Kind) (from_ : Nat) (c : Cmd) : FState × Bool × List (Nat × Cmd) :=
   let (seen', isNew) := mark st.seen now c.origin c.id from_
   let st1 := { st with seen := seen' }
   if !isNew then (st1, false, [])
   else if c.seenBy.contains cfg.localID then (st1, false, [])
-  else if !verifyWith outside V cfg now c then (st1, false, [])
+  else if !verify V cfg now c then (st1, false, [])
   else
     let fwd := { c with seenBy := c.seenBy ++ [cfg.localID] }
     let sends := (recipients cfg from_ fwd.seenBy).map fun p => (p, fwd)
